@@ -214,7 +214,7 @@ func (in *Interp) stmt(s gen.Stmt) {
 				saved, savedTaint := in.flag, in.taint
 				in.flag, in.taint = false, false
 				in.block(n.Else)
-				inner := in.flag
+				inner := in.flag || in.taint // a match anywhere inside, also in nested else branches
 				in.flag, in.taint = saved, savedTaint
 				if inner && !saved {
 					// a conditional inside the else branch matched: whether that
